@@ -21,7 +21,8 @@ THEOREMS = [
     "Signature.valid_always", "Signature.valid_iff_nodup", "Signature.duplicate_counterexample",
     # unstring_annotation
     "Signature.unstring_only_quotes", "Signature.unstring_result", "Signature.unstring_idempotent",
-    "Signature.literal_args_verbatim", "Signature.other_subscript_unquoted", "Signature.unstring_failure_in_place",
+    "Signature.value_strings_kept", "Signature.literal_args_verbatim", "Signature.annotated_metadata_verbatim",
+    "Signature.other_subscript_unquoted", "Signature.unstring_failure_in_place",
     "Signature.value_strings_unquoted_counterexample",
     # which defs get a signature, overload recognition
     "Signature.overload_by_resolution", "Signature.property_iff", "Signature.module_level_function",
@@ -29,11 +30,7 @@ THEOREMS = [
     "Signature.overloads_own", "Signature.overloads_displayed", "Signature.records_sound", "Signature.never_broken",
     "Signature.shownName_spec",
 ]
-PARTIAL: Dict[str, str] = {
-    "Signature.literal_args_verbatim": "strings that are values keep their quotes only under a subscript SPELLED Literal / x.Literal; the "
-                                       "metadata of Annotated[...] and a Literal imported under another name are excluded "
-                                       "(value_strings_unquoted_counterexample; open finding annotation:value-string-unquoted)",
-}
+PARTIAL: Dict[str, str] = {}
 RULE = ("FIRST a deterministic corpus (the shapes of all five seeded C14 changes: aliased @overload, annotated positional-only "
         "parameters, a string annotation shared under an operator, right operands of equal precedence, Literal reached through "
         "a module alias; direct oracle only) and the format_signature fallbacks. Then exhaustive: every sequence of <=4 "
@@ -67,6 +64,9 @@ ASSUMPTIONS = [
     "in the property's sense; `valid_iff_nodup` shows it is the only way into the ValueError branch; `build_shape` / "
     "`default_alignment_parser` hold without the distinct-names hypothesis",
     "the model's parser does not accept a trailing comma (never produced by inspect.Signature.__str__)",
+    "whether a name spelled otherwise designates typing.Literal / typing.Annotated (ctx.expandName in _is_typing_name) is a parameter of "
+    "the model (`AnnE.aliasRef`), computed by the harness from the module's imports; what visit_Subscript decides with it is modelled "
+    "and proved (`value_strings_kept`)",
     "name RESOLUTION of a decorator (parent.expandName) is a parameter of the model (flag `resolvesToOverload` / `isOverload`): the "
     "harness computes it from the source by Python's import rules (own resolver, independent of pydoctor), for every spelling; "
     "what the decorator loop decides with it is modelled and proved (`overload_by_resolution`)",
@@ -153,7 +153,7 @@ def _fully_parses(value: str) -> bool:
 
 
 ATOM_RE = re.compile(r"^a(\d+)$")
-ATTR_NAMES = {"Literal": 0, "T": 1}
+ATTR_NAMES = {"Literal": 0, "T": 1, "Annotated": 2}
 
 
 def _crc(text: str, mod: int) -> int:
@@ -179,12 +179,18 @@ def enc_ann(node: ast.expr) -> str:
     if isinstance(node, ast.Name):
         if node.id == "Literal":
             return "L"
+        if node.id == "Annotated":
+            return "M"
+        if node.id in _ENV["literal"]:          # a name bound to typing.Literal by an import ... as
+            return "l%d" % _crc(node.id, 1000)
+        if node.id in _ENV["annotated"]:
+            return "m%d" % _crc(node.id, 1000)
         m = ATOM_RE.match(node.id)
         return "a%d" % (int(m.group(1)) if m else 1000 + _crc(node.id, 9000))
     if isinstance(node, ast.Attribute):
         n = ATTR_NAMES.get(node.attr)
         if n is None:
-            n = 2 + _crc(node.attr, 97)
+            n = 3 + _crc(node.attr, 97)
         return "A%d%s" % (n, enc_ann(node.value))
     if isinstance(node, ast.Subscript):
         return "S" + enc_ann(node.value) + enc_ann(node.slice)
@@ -568,7 +574,9 @@ ANN_TEMPLATES = ["a{k}", "a{k}.T", "List[a{k}]", "Dict[str, a{k}]", "'a{k}'", "L
                  "Optional[\"a{k}\"]", "a{k} | None", "Callable[[int], a{k}]", "Literal['a{k}']", "Tuple[a{k}, ...]",
                  "\"'a{k}'\"", "None", "typing.Optional[a{k}]", "\"a{k} !\"", "List[\"a{k} !\"]", "\"'a{k} !'\"",
                  "t.Literal['a{k}']", "te.Literal['a{k}', 'x']", "typing.Literal['a{k}']", "'t.Literal[\"a{k}\"]'",
-                 "Dict['a{k}', t.Literal['a{k}']]", "'a{k}' | None", "List['a{k}'].T", "'Literal'['a{k}']"]
+                 "Dict['a{k}', t.Literal['a{k}']]", "'a{k}' | None", "List['a{k}'].T", "'Literal'['a{k}']",
+                 "Annotated['a{k}', 'meta']", "t.Annotated[a{k}, 'x y']", "LitAlias['a{k}']", "AnnAlias['a{k}', 'a{k}']",
+                 "Annotated['a{k}']", "List[LitAlias['a{k}']]", "'LitAlias[\"a{k}\"]'"]
 
 
 def random_signature(rng, lo: int, hi: int, exprs: bool) -> str:
@@ -667,8 +675,11 @@ def make_case(stream: str, params: str, ret: str, context: str, via_def: bool, a
     return Case(stream, params, ret, context, fn, via_def, apply_oracle)
 
 
+MODULE_HEADER = "import typing\nfrom typing import *\nfrom typing import Literal as LitAlias, Annotated as AnnAlias\n"
+
+
 def module_source(cases: Sequence[Case]) -> str:
-    lines = ["import typing", "from typing import *", ""]
+    lines = MODULE_HEADER.splitlines() + [""]
     cls_open = False
     for i, c in enumerate(cases):
         in_class, deco, is_async, _ = CONTEXTS[c.context]
@@ -689,6 +700,7 @@ def module_source(cases: Sequence[Case]) -> str:
 def run_cases(ctx: Ctx, cases: Sequence[Case], batch: int = 400) -> None:
     """real pipeline on every case, model comparison, direct oracle"""
     from pydoctor import model
+    set_env_from_source(MODULE_HEADER)
     by_stream: Dict[str, Tuple[List[str], List[str], List[Any]]] = {}
     read_reqs: List[str] = []
     read_impl: List[str] = []
@@ -916,7 +928,7 @@ def run_overloads(ctx: Ctx, ngroups: int) -> None:
 
 # ------------------------------------------------------------------ unstring_annotation tie
 
-ATTR_TEXT = {0: "Literal", 1: "T"}
+ATTR_TEXT = {0: "Literal", 1: "T", 2: "Annotated"}
 
 
 def ann_trees(depth: int) -> List[Any]:
@@ -946,6 +958,12 @@ def ann_text(e: Any) -> str:
         return "a%d" % e[1]
     if k == "L":
         return "Literal"
+    if k == "M":
+        return "Annotated"
+    if k == "lalias":
+        return "LitAlias"
+    if k == "aalias":
+        return "AnnAlias"
     if k == "N":
         return "None"
     if k == "bad":
@@ -978,17 +996,24 @@ def ann_text(e: Any) -> str:
 def ann_code(e: Any) -> str:
     k = e[0]
     return {"atom": lambda: "a%d" % e[1], "L": lambda: "L", "N": lambda: "N", "bad": lambda: "b%d" % e[1],
+            "M": lambda: "M", "lalias": lambda: "l%d" % _crc("LitAlias", 1000), "aalias": lambda: "m%d" % _crc("AnnAlias", 1000),
             "str": lambda: "s" + ann_code(e[1]), "attr": lambda: "A%d%s" % (e[2], ann_code(e[1])),
             "sub": lambda: "S" + ann_code(e[1]) + ann_code(e[2]), "tup": lambda: "T" + ann_code(e[1]) + ann_code(e[2]),
             "bor": lambda: "O" + ann_code(e[1]) + ann_code(e[2])}[k]()
 
 
 def _quotes_outside_literal(node: ast.AST) -> bool:
-    """is a string constant left anywhere but inside the slice of a (x.)Literal[...] subscript?"""
+    """is a string constant left anywhere but in a value context: the slice of something that designates typing.Literal,
+    the metadata (all but the first argument) of something that designates typing.Annotated?"""
+    def designates(v: ast.AST, kind: str) -> bool:
+        attr = "Literal" if kind == "literal" else "Annotated"
+        return (isinstance(v, ast.Name) and v.id in _ENV[kind]) or (isinstance(v, ast.Attribute) and v.attr == attr)
     if isinstance(node, ast.Subscript):
         v = node.value
-        if (isinstance(v, ast.Name) and v.id == "Literal") or (isinstance(v, ast.Attribute) and v.attr == "Literal"):
+        if designates(v, "literal"):
             return _quotes_outside_literal(v)
+        if designates(v, "annotated") and isinstance(node.slice, ast.Tuple) and node.slice.elts:
+            return _quotes_outside_literal(v) or _quotes_outside_literal(node.slice.elts[0])
     if isinstance(node, ast.Constant) and isinstance(node.value, str):
         return True
     return any(_quotes_outside_literal(ch) for ch in ast.iter_child_nodes(node))
@@ -998,19 +1023,30 @@ def run_unstring(ctx: Ctx, depth: int, nrandom: int) -> None:
     """astutils.unstring_annotation on annotation trees <-> model AnnE.unstring; oracle: only quotes change, and either
     a SyntaxError was reported and the node is untouched, or no forward-reference string is left"""
     from pydoctor import astutils
-    system = build_system("x = 1\n")
+    system = build_system(MODULE_HEADER + "x = 1\n")
     mod = system.allobjects["m"]
+    set_env_from_source(MODULE_HEADER)
     trees = ann_trees(depth)
+    # value contexts: everything that can designate typing.Literal / typing.Annotated (bare, attribute, imported under
+    # another name, quoted) and look-alikes, over every small slice, bare and wrapped
+    heads: List[Any] = [("L",), ("M",), ("lalias",), ("aalias",), ("attr", ("atom", 1), 0), ("attr", ("atom", 1), 2),
+                        ("attr", ("lalias",), 1), ("str", ("L",)), ("str", ("M",)), ("str", ("lalias",)), ("str", ("aalias",)),
+                        ("atom", 1), ("attr", ("atom", 1), 1), ("attr", ("str", ("atom", 1)), 2)]
+    small = [t for t in ann_trees(1)]
+    for h in heads:
+        for sl in small:
+            base = ("sub", h, sl)
+            trees += [base, ("str", base), ("sub", ("atom", 2), base), ("tup", base, ("str", ("atom", 2))), ("bor", ("str", ("atom", 2)), base)]
     rng = ctx.rng
 
     def rand_tree(d: int) -> Any:
         if d == 0 or rng.random() < 0.25:
-            return rng.choice([("atom", 1), ("atom", 2), ("atom", 3), ("L",), ("N",), ("bad", 1)])
+            return rng.choice([("atom", 1), ("atom", 2), ("atom", 3), ("L",), ("N",), ("bad", 1), ("M",), ("lalias",), ("aalias",)])
         c = rng.choice(["str", "str", "attr", "sub", "sub", "tup", "bor"])
         if c == "str":
             return ("str", rand_tree(d - 1))
         if c == "attr":
-            return ("attr", rand_tree(d - 1), rng.choice([0, 0, 1]))
+            return ("attr", rand_tree(d - 1), rng.choice([0, 0, 1, 2, 2]))
         return (c, rand_tree(d - 1), rand_tree(d - 1))
     trees += [rand_tree(rng.randint(3, 5)) for _ in range(nrandom)]
     reqs, impls, pay = [], [], []
@@ -1039,8 +1075,10 @@ def run_unstring(ctx: Ctx, depth: int, nrandom: int) -> None:
         ctx.case("unstring " + code, "s" in code and ("S" in code or "A" in code), None)
         ctx.count("stream:unstring")
         ctx.count("unstring:" + ("syntax-error" if failed else "unquoted" if "s" in code else "nothing-to-do"))
-        if "SL" in code or "SA0" in code or "SsL" in code:
+        if "SL" in code or "SA0" in code or "SsL" in code or "Sl" in code:
             ctx.count("unstring:has-Literal-subscript")
+        if "SM" in code or "SA2" in code or "Sm" in code:
+            ctx.count("unstring:has-Annotated-subscript")
         if res is None:
             ctx.fail("unstring:crash", {"kind": "unstring", "text": text}, out)
             continue
@@ -1226,7 +1264,7 @@ CORPUS = [
     ("seeded-C14-r3-1-equal-constants-in-one-module",
      "def first(verbose=False, scale=1.0):\n    pass\ndef connect(host, retries=0, workers=1, strict=True, *, backoff=0.0, debug=False):\n    pass\n"
      "class K:\n    def m(self, a=0, b=False, c=0.0, d=-0.0, e=0j, f=1, g=True, h=1.0): ...\n    def n(self, a=True, b=1, c='', d=b'', e='a', f=b'a', g=None, h=0): ...\n"),
-    ("finding-value-strings-unquoted",
+    ("fixed-c06a302-value-strings-unquoted",
      "from typing import Literal as L, Annotated\nimport typing as t\ndef b(x: Annotated[int, 'meta'], y: L['int'], z: t.Annotated[int, 'unit']) -> L['r', 'w']: ...\n"),
     ("seeded-C14-1-aliased-overload",
      "import typing as t\nfrom typing import overload as _overload, Union\n\n@_overload\ndef parse(s: str, /, *, strict: bool = True) -> str: ...\n"
@@ -1378,6 +1416,7 @@ def run(ctx: Ctx) -> None:
     # 0. deterministic corpus: the shapes of every seeded change, independent of the seed, first
     run_corpus(ctx)
     run_fallback(ctx)
+    set_env_from_source(MODULE_HEADER)
     nmax = 3 if ctx.quick else 4
     cases: List[Case] = []
     read_texts: List[str] = []
@@ -1420,7 +1459,8 @@ def run(ctx: Ctx) -> None:
     # 3. string annotations and the -> None spellings
     anns = ["'a0'", "\"'a0'\"", "List['a0']", "'List[a0]'", "Literal['a0']", "'a0 !'", "\"'a0 !'\"", "List['a0 !']", "None", "'None'",
             "typing.Literal['a0']", "Dict['a0', List['a0']]", "\"Optional['a0']\"", "t.Literal['a0']", "te.Literal['a0', 'x']",
-            "'t.Literal[\"a0\"]'", "List[t.Literal['a0']]", "'Literal'['a0']"]
+            "'t.Literal[\"a0\"]'", "List[t.Literal['a0']]", "'Literal'['a0']", "Annotated['a0', 'meta']", "t.Annotated[a0, 'x y']",
+            "LitAlias['a0']", "AnnAlias['a0', 'a0']", "List[AnnAlias[LitAlias['a0'], 'a0']]"]
     for a in anns:
         for tmpl in ("p0: {a}", "p0: {a} = d0", "p0: {a}, /, p1", "*p0: {a}", "**p0: {a}", "*, p0: {a} = d0", "p0, p1: {a}"):
             for ret in ("", " -> " + a, " -> None", " -> 'None'", " -> \"'None'\""):
